@@ -66,7 +66,7 @@ pub fn run_c01(ctx: &mut Ctx) {
          buffer sizes from longest+13 upward; chunkings: all-at-once, 1-byte, buffer-filling, every single cut (wires <= 600 B; sampled in quick), random. Expectation known by construction (independent lossy/uppercase/last-wins reference). \
          Non-trivial: >= 1 pair or >= 1 noise record; distinct by (wire, buffer size, chunking)");
     let mut rng = ctx.rng.fork();
-    let ncases = ctx.n(260, 1500);
+    let ncases = ctx.n(260, 700);
     let thorough = ctx.tier_thorough || ctx.widen;
     for ci in 0..ncases {
         let big = ci % 37 == 5;
@@ -129,6 +129,18 @@ pub fn run_c06(ctx: &mut Ctx) {
         or.eval(("aligned", b), true);
     }
     or.exhaustive.push("buffer_size 0..=4096".into());
+    // the same effective size for the OTHER public constructor: stream::Parser::new(config, request) on a request extracted by into_request()
+    log.case("flat-stream-new");
+    let pre_min = ser_all(&[begin(1, 1, 0, vec![]), Rec::new(T_PARAMS, 1, vec![], vec![])]);
+    for &b in sizes.iter().filter(|&&b| b <= 70 || b % 97 == 0 || (b & (b.wrapping_sub(1))) == 0).chain([8191usize, 8192, 8193, 65535, 65536].iter()) {
+        let e = { let o = ex(&mut log, &mut im, &format!("cfg.aligned {b}")); o.parse::<usize>().unwrap_or(0) };
+        ex(&mut log, &mut im, "req.new 64 1");
+        ex(&mut log, &mut im, &format!("req.feed {}", hexd(&pre_min)));
+        let o = ex(&mut log, &mut im, &format!("req.to_stream_new {b} 1"));
+        let free: usize = crate::runfam::field(&o, "free").and_then(|x| x.parse().ok()).unwrap_or(usize::MAX);
+        if free != e { or.fail(format!("stream::Parser::new with buffer_size {b}: input buffer of {free} bytes, the effective size is {e}"), log.replay_block(), format!("C06:stream-new:{b}")); }
+        or.eval(("stream-new", b), true);
+    }
     // critical pairs
     let ncases = ctx.n(120, 2500);
     let mut stuck_at = std::collections::BTreeMap::<i64, (u64, u64)>::new();
@@ -302,9 +314,20 @@ pub fn c03_req(ctx: &mut Ctx, log: &mut Log, im: &mut Impl, or: &mut Oracle) {
         let mc = 1 + rng.usize_below(50);
         let nl = rng.below(6);
         let built = build_preamble(&mut rng, &pre, nl, mc, 40);
-        let mut wire = ser_all(&built.recs);
+        // a record the parser has to SKIP whose content and padding together reach or exceed 2^16 (two u8/u16 fields that do not
+        // fit a u16 when added): unknown type, a stray stream record, a foreign BeginRequest — before or among the preamble's records
+        let big_skip = ci % 40 == 5;
+        let mut all_recs = built.recs.clone();
+        if big_skip {
+            let (l, pd) = *rng.pick(&[(65535usize, 1usize), (65535, 255), (65529, 7), (65281, 255), (65535, 0), (65280, 255), (65534, 2)]);
+            let (t, id) = *rng.pick(&[(200u8, 0u16), (200, 77), (T_STDIN, 9), (T_DATA, pre.id), (T_BEGIN, pre.id ^ 1 | 0x100), (T_GETVALUESRESULT, 0)]);
+            let at = rng.usize_below(all_recs.len());
+            all_recs.insert(at, Rec::new(t, id, rng.bytes(l), vec![0u8; pd]));
+            or.count("big_skip_records");
+        }
+        let mut wire = ser_all(&all_recs);
         wire.extend(rng.bytes(rng.clone().usize_below(12)));
-        let kind = if ci % 9 == 0 { "valid" } else { mutate(&mut rng, &mut wire, &built.recs) };
+        let kind = if big_skip { "big-skip" } else if ci % 9 == 0 { "valid" } else { mutate(&mut rng, &mut wire, &built.recs) };
         if ci % 5 == 0 { let _ = mutate(&mut rng, &mut wire, &[]); }
         or.count(&format!("mutation={kind}"));
         let b = *rng.pick(&[24usize, 32, 40, 64, 128, 512, 8192]);
